@@ -404,7 +404,9 @@ def inherited_properties_are_applied_to_a_private_datatype(ctx):
             and c.args[0].value == 'datatype']
     R = [i for st in rebinds for i in cfg.node_of(st)] + [i for c in pops for i in cfg.node_of(c)]
     # G: tests whether there is a datatype at all
-    G = [t.id for t in cfg.nodes if t.kind == 'test' and ('datatype' in src(t.ast)) and ('None' in src(t.ast) or ' in ' in src(t.ast))]
+    def rs(t):      # the test with its once-bound locals spelled out (`dt = properties.get('datatype'); if dt is None`)
+        return src(resolved(t.ast, f.node)) if isinstance(t.ast, ast.expr) else src(t.ast)
+    G = [t.id for t in cfg.nodes if t.kind == 'test' and ('datatype' in rs(t)) and ('None' in rs(t) or ' in ' in rs(t))]
     for c in inits:
         ids = cfg.node_of(c)
         unguarded = set(ids) & cfg.reach([cfg.entry], avoid=set(R) | set(G))
@@ -413,7 +415,7 @@ def inherited_properties_are_applied_to_a_private_datatype(ctx):
             for g in G:
                 tsucc = [b for b, lab in cfg.succ[g] if lab == 'T']
                 fsucc = [b for b, lab in cfg.succ[g] if lab == 'F']
-                neg = ' is None' in src(cfg.nodes[g].ast) or 'not in' in src(cfg.nodes[g].ast)
+                neg = ' is None' in rs(cfg.nodes[g]) or 'not in' in rs(cfg.nodes[g])
                 has_side = fsucc if neg else tsucc
                 covered = covered and all(x in R or not (set(ids) & (cfg.reach([x], avoid=set(R)) | {x})) for x in has_side)
         ctx.check(covered, f'{f.qualname}:properties applied to a private datatype', c,
